@@ -1,13 +1,94 @@
 /-
-Oracle ops for the `sm` family.  Owned by the slice that models it; see AGENT_GUIDE.md.
+Oracle ops for the `sm` family: the state machine of jsontext/state.go (Model/State.lean).
+
+  sm run <ops>            ops = one word of letters, executed left to right on a fresh machine:
+                            l appendLiteral   s appendString   n appendNumber
+                            { pushObject      } popObject      [ pushArray      ] popArray
+                            D Last.DisableNamespace()          I InvalidateDisabledNamespaces()
+                          a rejected op leaves the machine as it was and the run continues.
+                          answer:  <codes> <depth> <length> <last> <stack>
+                            codes  one digit per op: 0 ok, 1 ErrNonStringName, 2 errInvalidNamespace,
+                                   3 errMaxDepth, 4 errMismatchDelim, 5 errMissingValue   (D and I: 0)
+                            depth  Depth(), length  Last.Length(), last  Last as hex,
+                            stack  the words of Stack (outermost first) as hex joined by ',' ("-" if empty)
+  sm trace <ops>          answer:  one `<code>:<last>:<depth>` per op (space separated), then `|` and the final stack
+  sm q <ops> <next>       next = kind byte in hex (e.g. 7d); after running ops:
+                          answer:  <needDelim as decimal byte> <NeedIndent> <MayAppendDelim(nil,next) as hex>
+  sm push <n>             n times pushArray on a fresh machine: answer  <number of successes> <code of the last op> <depth>
+The depth limit is the regenerated constant `maxNestingDepth`.  `ops` may be "-" for the empty sequence.
 -/
 import JsonV.Oracle.Util
+import JsonV.Model.State
+import JsonV.Gen.Constants
 
 namespace JsonV.Oracle.Sm
-open JsonV JsonV.Oracle
+open JsonV JsonV.Oracle JsonV.Model
+
+def maxDepth : Nat := JsonV.Gen.jsontext.c_maxNestingDepth
+
+def errCode : SMErr → Nat
+  | .nonStringName => 1 | .invalidNamespace => 2 | .maxDepth => 3 | .mismatchDelim => 4 | .missingValue => 5
+
+/-- One op: the machine afterwards and the result code; `none` for an unknown letter. -/
+def applyOp (m : Machine) (c : Char) : Option (Machine × Nat) :=
+  let r (x : Except SMErr Machine) : Option (Machine × Nat) :=
+    match x with
+    | .ok m' => some (m', 0)
+    | .error e => some (m, errCode e)
+  match c with
+  | 'l' => r m.appendLiteral
+  | 's' => r m.appendString
+  | 'n' => r m.appendNumber
+  | '{' => r (m.pushObject maxDepth)
+  | '}' => r m.popObject
+  | '[' => r (m.pushArray maxDepth)
+  | ']' => r m.popArray
+  | 'D' => some ({ m with last := m.last.disableNamespace }, 0)
+  | 'I' => some (m.invalidateDisabledNamespaces, 0)
+  | _ => none
+
+def showStack (s : List Entry) : String :=
+  if s.isEmpty then "-" else ",".intercalate (s.map hexOfBv)
+
+def runOps (ops : List Char) : Option (Machine × List (Nat × Machine)) :=
+  ops.foldl (fun acc c => match acc with
+    | none => none
+    | some (m, tr) => match applyOp m c with
+      | none => none
+      | some (m', code) => some (m', (code, m') :: tr)) (some (Machine.init, []))
+
+def opsOf (s : String) : List Char := if s == "-" then [] else s.toList
+
+def pushN : Nat → Machine → Nat → Nat × Nat × Machine
+  | 0, m, ok => (ok, 0, m)
+  | n + 1, m, ok =>
+    match m.pushArray maxDepth with
+    | .ok m' => pushN n m' (ok + 1)
+    | .error e => if n = 0 then (ok, errCode e, m) else pushN n m ok
 
 def handle (op : String) (args : List String) : String :=
   match op, args with
-  | _, _ => "ERR unimplemented"
+  | "run", [ops] =>
+    match runOps (opsOf ops) with
+    | none => badArgs
+    | some (m, tr) =>
+      let codes := String.ofList (tr.reverse.map fun (c, _) => Char.ofNat (48 + c))
+      s!"{if codes.isEmpty then "-" else codes} {m.depth} {m.last.length} {hexOfBv m.last} {showStack m.stack}"
+  | "trace", [ops] =>
+    match runOps (opsOf ops) with
+    | none => badArgs
+    | some (m, tr) =>
+      " ".intercalate (tr.reverse.map fun (c, m') => s!"{c}:{hexOfBv m'.last}:{m'.depth}") ++ " | " ++ showStack m.stack
+  | "q", [ops, next] =>
+    match runOps (opsOf ops), natOfHex next with
+    | some (m, _), some k =>
+      let kb := UInt8.ofNat k
+      s!"{(m.needDelim kb).toNat} {m.needIndent kb} {hexOfBytes (m.mayAppendDelim [] kb)}"
+    | _, _ => badArgs
+  | "push", [n] =>
+    match n.toNat? with
+    | some n => let (ok, code, m) := pushN n Machine.init 0; s!"{ok} {code} {m.depth}"
+    | none => badArgs
+  | _, _ => badArgs
 
 end JsonV.Oracle.Sm
